@@ -612,3 +612,16 @@ Section Lex.
     | OutOfFuel => RFuel
     end.
 End Lex.
+
+(* ---------------------------------------------------------------- rendering (round trip) *)
+(* the way the harness writes a text atom:  "v1 v2"  — here a list of such atoms, each preceded by
+   one space; plain = free of the quote, the backslash and the asterisk *)
+Definition plain (w : bytes) : bool :=
+  negb (contains_byte 34 w) && negb (contains_byte 92 w) && negb (contains_byte 42 w).
+Fixpoint render_dq (ws : list bytes) : bytes :=
+  match ws with
+  | [] => []
+  | w :: r => 32%N :: 34%N :: w ++ 34%N :: render_dq r
+  end.
+Definition dq_tok (w : bytes) : ltok := mkTok w true false true.
+
